@@ -185,6 +185,19 @@ class Engine:
 
     def initial(self):
         self._put_file(None)
+        if self.scn['stale_file'] and self.path is not None:
+            # the path already holds the finished checkpoint of an EARLIER computation (other seed);
+            # a sampler created with resume=False must behave exactly like one on a fresh path
+            other = scen.Scenario(self.scn.name + '-earlier', **{
+                k: v for k, v in self.scn.items() if k not in ('name', 'seed', 'stale_file')})
+            other['seed'] = self.scn['seed'] + 17
+            on = scen.LOG['on']
+            scen.LOG['on'] = False
+            try:
+                s0 = other.build(filepath=self.path, resume=False)
+                s0.run(**other.run_args())
+            finally:
+                scen.LOG['on'] = on
         s = self.scn.build(filepath=self.path, resume=False)
         return self.capture(s, None, None, target=(self.scn['n_eff'], self.scn['n_shell']))
 
